@@ -285,7 +285,7 @@ def run(index, rep, tier):
                         continue
                     nprobe += 1
                     w = loops[-1]
-                    tests = [t for t in ast.walk(w) if isinstance(t, ast.If) and any(isinstance(b, ast.Break) for b in ast.walk(t))]
+                    tests = [t for t in ast.walk(w) if isinstance(t, ast.If)]
                     asks_ns = any(isinstance(x, ast.Call) and call_name(x) in ("has_taxon_label", "get_taxon", "findall", "has_taxa_labels") and any(isinstance(z, ast.Name) and z.id == lab for z in ast.walk(x)) for t in tests for x in ast.walk(t.test))
                     rep.check(asks_ns, "R18.11", f.qualname, "fresh label probed against a plain set, required through the namespace", fn_where(f, w), "%s probes `%s` through the namespace" % (f.name, lab),
                               "%s invents `%s` until `%s` and then calls require_taxon(label=%s): the probe compares spellings exactly while require_taxon matches by the namespace's case rule (case-insensitive by default), so with a supplied namespace [t1, t2, t3] the label T1 passes the probe, require_taxon returns the existing t1, and that taxon ends up on two leaves - N leaves no longer carry N distinct taxa" % (f.qualname, lab, norm(tests[0].test)[:50] if tests else "?", lab))
